@@ -341,7 +341,10 @@ fn handle_xgroup_create(storage: &Arc<StorageEngine>, db: usize, parts: &[RespFr
     
     // Create the consumer group
     match stream.create_consumer_group(group_name, start_id) {
-        Ok(()) => Ok(RespFrame::ok()),
+        Ok(()) => {
+            storage.mark_key_modified(db, &key)?;
+            Ok(RespFrame::ok())
+        }
         Err(e) if e.contains("already exists") => Ok(RespFrame::error("BUSYGROUP Consumer Group name already exists")),
         Err(e) => Ok(RespFrame::error(format!("ERR {}", e))),
     }
@@ -372,6 +375,9 @@ fn handle_xgroup_destroy(storage: &Arc<StorageEngine>, db: usize, parts: &[RespF
     
     // Destroy the group
     let destroyed = stream.destroy_consumer_group(&group_name);
+    if destroyed {
+        storage.mark_key_modified(db, key)?;
+    }
     Ok(RespFrame::Integer(if destroyed { 1 } else { 0 }))
 }
 
@@ -411,6 +417,9 @@ fn handle_xgroup_createconsumer(storage: &Arc<StorageEngine>, db: usize, parts: 
     
     // Create the consumer
     let created = group.create_consumer(consumer_name);
+    if created {
+        storage.mark_key_modified(db, key)?;
+    }
     Ok(RespFrame::Integer(if created { 1 } else { 0 }))
 }
 
@@ -450,6 +459,7 @@ fn handle_xgroup_delconsumer(storage: &Arc<StorageEngine>, db: usize, parts: &[R
     
     // Delete the consumer and return pending count
     let pending_removed = group.delete_consumer(&consumer_name);
+    storage.mark_key_modified(db, key)?;
     Ok(RespFrame::Integer(pending_removed as i64))
 }
 
@@ -501,6 +511,7 @@ fn handle_xgroup_setid(storage: &Arc<StorageEngine>, db: usize, parts: &[RespFra
     
     // Set the ID
     group.set_id(new_id);
+    storage.mark_key_modified(db, key)?;
     Ok(RespFrame::ok())
 }
 
@@ -664,6 +675,7 @@ pub fn handle_xreadgroup(storage: &Arc<StorageEngine>, db: usize, parts: &[RespF
         // Read entries for the group
         match stream.read_group(&group_name, &consumer_name, after_id, count, noack) {
             Ok(entries) if !entries.is_empty() => {
+                storage.mark_key_modified(db, key)?;
                 let mut stream_result = Vec::new();
                 
                 // Stream key
@@ -746,7 +758,12 @@ pub fn handle_xack(storage: &Arc<StorageEngine>, db: usize, parts: &[RespFrame])
     
     // Acknowledge messages
     match stream.acknowledge_messages(&group_name, &ids) {
-        Ok(count) => Ok(RespFrame::Integer(count as i64)),
+        Ok(count) => {
+            if count > 0 {
+                storage.mark_key_modified(db, key)?;
+            }
+            Ok(RespFrame::Integer(count as i64))
+        }
         Err(e) if e.contains("NOGROUP") => Ok(RespFrame::Integer(0)),
         Err(e) => Ok(RespFrame::error(e)),
     }
@@ -966,6 +983,7 @@ pub fn handle_xclaim(storage: &Arc<StorageEngine>, db: usize, parts: &[RespFrame
     // Claim messages
     match stream.claim_messages(&group_name, &consumer_name, min_idle_ms, &ids, force) {
         Ok(entries) => {
+            storage.mark_key_modified(db, key)?;
             if justid {
                 // Return just IDs
                 let id_frames: Vec<RespFrame> = entries
